@@ -18,6 +18,7 @@ type Header struct {
 
 var MagicNumberMismatchErr = fmt.Errorf("magic number mismatch")
 var HeaderChecksumMismatchErr = fmt.Errorf("header checksum mismatch")
+var NonCanonicalVarintErr = fmt.Errorf("non-canonical varint in record header")
 
 func readFileHeaderFromBuffer(buffer []byte) (*Header, error) {
 	if len(buffer) != FileHeaderSizeBytes {
@@ -107,9 +108,23 @@ func readRecordHeaderV3(r io.ByteReader) (payloadSizeUncompressed uint64, payloa
 	return payloadSizeUncompressed, payloadSizeCompressed, recordNil == 1, nil
 }
 
+// readCanonicalUvarint reads a varint the way the writer encodes it. Encodings padded with zero groups decode to
+// the same number with a different length, they are never written and would let a damaged header go unnoticed.
+func readCanonicalUvarint(reader *checksumByteReader) (uint64, error) {
+	start := reader.Count()
+	v, err := binary.ReadUvarint(reader)
+	if err != nil {
+		return 0, err
+	}
+	if reader.Count()-start > 1 && reader.bytes[reader.Count()-1] == 0 {
+		return 0, NonCanonicalVarintErr
+	}
+	return v, nil
+}
+
 func readRecordHeaderV4(reader *checksumByteReader) (payloadSizeUncompressed uint64, payloadSizeCompressed uint64, recordNilBool bool, err error) {
 	reader.Reset()
-	magicNumber, err := binary.ReadUvarint(reader)
+	magicNumber, err := readCanonicalUvarint(reader)
 	if err != nil {
 		return 0, 0, false, err
 	}
@@ -122,12 +137,12 @@ func readRecordHeaderV4(reader *checksumByteReader) (payloadSizeUncompressed uin
 		return 0, 0, false, err
 	}
 
-	payloadSizeUncompressed, err = binary.ReadUvarint(reader)
+	payloadSizeUncompressed, err = readCanonicalUvarint(reader)
 	if err != nil {
 		return 0, 0, false, err
 	}
 
-	payloadSizeCompressed, err = binary.ReadUvarint(reader)
+	payloadSizeCompressed, err = readCanonicalUvarint(reader)
 	if err != nil {
 		return 0, 0, false, err
 	}
@@ -137,7 +152,7 @@ func readRecordHeaderV4(reader *checksumByteReader) (payloadSizeUncompressed uin
 		return 0, 0, false, err
 	}
 
-	expectedChecksum, err := binary.ReadUvarint(reader)
+	expectedChecksum, err := readCanonicalUvarint(reader)
 	if err != nil {
 		return 0, 0, false, err
 	}
